@@ -1227,6 +1227,14 @@ pub fn scenarios(t: &Tables, seeds: &[String], seed: u64, n_small: usize, n_mate
                 let forced = found % 2 == 1;
                 if let Some(cyc) = perpetual_cycle(t, &b0, forced) {
                     out.push(json!({"tag": "rep", "cmd": format!("position fen {} moves {}", to_fen(&b0, 0, 1), cyc.join(" "))}));
+                    if !forced {
+                        // two full cycles: the CHECKER is offered the repetition - its checking move leads into a position that has
+                        // occurred twice, and the checked side could leave the cycle with its reply if the search went on (a draw
+                        // test that is skipped for positions in check values the move by that reply)
+                        let mut two: Vec<String> = cyc[..4].to_vec();
+                        two.extend_from_slice(&cyc[..4]);
+                        out.push(json!({"tag": "rep", "cmd": format!("position fen {} moves {}", to_fen(&b0, 0, 1), two.join(" "))}));
+                    }
                     if forced {
                         // the same geometry WITHOUT a history, the checking side to move: the perpetual comes back to the root position at
                         // ply 4 (through the check extension inside iteration 3) - a second occurrence, which is not a draw; and with one
